@@ -985,6 +985,9 @@ class XandikosBackend(webdav.Backend):
         self.index_threshold = index_threshold
 
     def _map_to_file_path(self, relpath):
+        # Normalize first, so that ".." segments can never lead outside
+        # of the backend directory.
+        relpath = posixpath.normpath("/" + relpath)
         return os.path.join(self.path, relpath.lstrip("/"))
 
     def _mark_as_principal(self, path):
